@@ -33,6 +33,7 @@ const char *__asan_default_options(void) { return "detect_leaks=0:abort_on_error
 const char *__ubsan_default_options(void) { return "print_stacktrace=1:halt_on_error=1"; }
 
 static int thorough;
+static double t_main0;
 static int t_case_s = 5;           /* per-case time bound (s) */
 #define BATCH 1000
 #define FLOOD_N 6                  /* identical crashes per (group, class) before the rest of the class is skipped */
@@ -366,8 +367,8 @@ static const entry_t entries[] = {
     { "psPemDecode/pass", F_PEMDEC, 0, C09_PASSWORD, KB(K_KEY_PEM) | KB(K_ENCKEY_PEM), 1, C_ALL, 2000, NULL, 0, NULL, pem_any_byte_seeds },
     { "psPemDecode/unterminated", F_PEMDEC, 0, C09_PASSWORD, KB(K_ENCKEY_PEM), 0, C_IDENT | C_RAW | C_PEM, 0, NULL, 0 },
     { "psPemTryDecode", F_PEMTRY, 0, C09_PASSWORD, KB(K_KEY_PEM) | KB(K_ENCKEY_PEM) | KB(K_PUB_PEM) | KB(K_CERT_PEM), 1, C_IDENT | C_TRUNC | C_PEM | C_RAW, 0, NULL, 0 },
-    { "matrixSslLoadKeysMem/cert-pem", F_LOADKEYS, 0, NULL, KB(K_CERT_PEM), 1, C_ALL, 0, lk_cert_seeds, 0 },
-    { "matrixSslLoadKeysMem/key-pem", F_LOADKEYS, 1, NULL, KB(K_KEY_PEM), 1, C_ALL, 0, lk_key_seeds, 0 },
+    { "matrixSslLoadKeysMem/cert-pem", F_LOADKEYS, 0, NULL, KB(K_CERT_PEM), 1, C_ALL & ~C_RAW, 0, lk_cert_seeds, 0 },
+    { "matrixSslLoadKeysMem/key-pem", F_LOADKEYS, 1, NULL, KB(K_KEY_PEM), 1, C_ALL & ~C_RAW, 0, lk_key_seeds, 0 },
     { "matrixSslLoadKeysMem/ca-pem", F_LOADKEYS, 2, NULL, KB(K_CERT_PEM), 1, C_ALL, 0, lk_ca_seeds, 0 },
     { "matrixSslLoadKeysMem/cert-der", F_LOADKEYS, 0, NULL, KB(K_CERT_DER), 1, C_IDENT | C_TRUNC | C_DER, 0, lk_cert_seeds, 0 },
     { "matrixSslLoadKeysMem/key-der", F_LOADKEYS, 1, NULL, KB(K_ECKEY_DER) | KB(K_RSAKEY_DER) | KB(K_P8_DER), 1, C_IDENT | C_TRUNC | C_DER, 0, lk_key_seeds, 0 },
@@ -1042,7 +1043,7 @@ static int bucket_skipped(int top, int sub)
 }
 
 /* allocation bound per parser call: no honest parse needs more than a few thousand allocations */
-#define ALLOC_BOUND 60000
+#define ALLOC_BOUND 20000
 static int alloc_bound_hook(long k)
 {
     if (k > ALLOC_BOUND)
@@ -1363,6 +1364,17 @@ static void classify_crash(int st, char *kind, size_t kn, char *site, size_t sn,
                 start = i + 1;
             }
         }
+        if (!strcmp(kind, "alloc-runaway"))
+        {
+            /* the allocation that crosses the bound is incidental: name the outermost library function (the API entered) */
+            for (i = start; i < nfr && !fr[i].harness; i++)
+            {
+            }
+            if (i > start && i < nfr)
+            {
+                start = i - 1;
+            }
+        }
         for (i = start; i < nfr; i++)
         {
             if (!fr[i].file[0])
@@ -1583,6 +1595,7 @@ static void run_group(long gi, void *unused)
     int nfl = 0;
     long lo;
     (void) unused;
+    double tg0 = now_s();
     worker_setup();
     nskip_b = 0;
     for (lo = g->lo; lo < g->hi; )
@@ -1638,7 +1651,7 @@ static void run_group(long gi, void *unused)
                     fl[nfl].n = 0;
                     nfl++;
                 }
-                if (k < nfl && ++fl[k].n >= FLOOD_N && nskip_b < 64 && !bucket_skipped(top, sub))
+                if (k < nfl && (fl[k].n += strstr(key, "|hang|") ? 3 : 1) >= FLOOD_N && nskip_b < 64 && !bucket_skipped(top, sub))
                 {
                     char note[160];
                     skip_b[nskip_b].top = top;
@@ -1666,6 +1679,10 @@ static void run_group(long gi, void *unused)
         r.state_hash = fnv1a(r.desc, strlen(r.desc), rch);
         mx_record(&r);
         lo = hi;
+    }
+    if (getenv("C09_DEBUG") && now_s() - tg0 > 5)
+    {
+        fprintf(stderr, "[c09] group %ld %s %s %ld-%ld took %.1fs (finished at +%.1fs)\n", gi, E->name, seed_name(g->s), g->lo, g->hi, now_s() - tg0, now_s() - t_main0);
     }
 }
 
@@ -1779,7 +1796,7 @@ int main(int argc, char **argv)
     replay = mx_parse_args(argc, argv, &cfg);
     thorough = !strcmp(cfg.tier, "thorough");
     tier_name = thorough ? "thorough" : "quick";
-    t_case_s = thorough ? 8 : 5;
+    t_case_s = thorough ? 8 : 4;
     {
         ssize_t n = readlink("/proc/self/exe", self_exe, sizeof(self_exe) - 1);
         self_exe[n > 0 ? n : 0] = 0;
@@ -1880,9 +1897,10 @@ int main(int argc, char **argv)
     }
 
     mx_init(&cfg);
+    t_main0 = now_s();
     note_disabled();
     estats = mmap(NULL, sizeof(estat_t) * NENT, PROT_READ | PROT_WRITE, MAP_SHARED | MAP_ANONYMOUS, -1, 0);
-    groups = calloc((size_t) NENT * (MAXSEEDS + 600) * 4, sizeof(grp_t));
+    groups = calloc((size_t) NENT * (MAXSEEDS + 600) * 32, sizeof(grp_t));
     for (e = 0; e < NENT; e++)
     {
         const entry_t *E = &entries[e];
@@ -1910,13 +1928,19 @@ int main(int argc, char **argv)
             {
                 nmatch++;
             }
-            per = s == RAW_SEED ? 1.0 : (double) seeds[s].len * ((E->fn == F_P12 || E->fn == F_LOADP12) ? 8 : 1);
-            for (lo = 0; lo < L.total; lo += CHUNK)
             {
-                grp_t *g = &groups[ngroups++];
-                g->e = e; g->s = s; g->lo = lo;
-                g->hi = lo + CHUNK < L.total ? lo + CHUNK : L.total;
-                g->cost = (double) (g->hi - g->lo) * per;
+                /* relative cost per case (measured): key derivation / 3 certificate parses per call dominate */
+                int w = (E->fn == F_P12 || E->fn == F_LOADP12) ? 40 : (E->pass && (E->fn == F_P8 || E->fn == F_UNKPRIV)) ? 60 :
+                    E->fn == F_LOADKEYS ? 8 : (E->fn == F_X509 || E->fn == F_X509DATA) ? 4 : E->fn == F_DH ? 3 : 1;
+                long chunk = CHUNK / w < 1000 ? 1000 : CHUNK / w;
+                per = (s == RAW_SEED ? 200.0 : (double) seeds[s].len) * w;
+                for (lo = 0; lo < L.total; lo += chunk)
+                {
+                    grp_t *g = &groups[ngroups++];
+                    g->e = e; g->s = s; g->lo = lo;
+                    g->hi = lo + chunk < L.total ? lo + chunk : L.total;
+                    g->cost = (double) (g->hi - g->lo) * per;
+                }
             }
             total_cases += L.total;
         }
